@@ -6,17 +6,29 @@ import Cose.Cwt.View
 namespace Cose.Driver.Cwt
 open Cose.Driver Cose.Cwt Cose.Spec.Rfc8392
 
+/-- one token per claim value; compound values in a compact form: `L:a+b` an array, `LL:a+b` an array holding one array,
+    `M:k+v` a one-entry map -/
+def parseClaimVal (t : String) : Option Cose.Go.GoVal :=
+  let items (body : String) : Option (List Cose.Go.GoVal) := (body.splitOn "+").mapM parseScalar
+  if t.startsWith "LL:" then (items (t.drop 3).toString).map (fun l => .list [.list l])
+  else if t.startsWith "L:" then (items (t.drop 2).toString).map .list
+  else if t.startsWith "M:" then
+    (match items (t.drop 2).toString with
+     | some [k, v] => some (.map [(k, v)])
+     | _ => none)
+  else parseScalar t
+
 /-- what `ValidateMap` sees through `Has` + `GetUint64` -/
 def parseTime (t : String) : Option TimeClaim :=
   if t == "a" then some .absent
-  else match parseScalar t with
+  else match parseClaimVal t with
     | none => none
     | some v => some (timeView (some v))
 
 /-- what `ValidateMap` sees through `GetString` -/
 def parseText (t : String) : Option TextClaim :=
   if t == "a" then some .absent
-  else match parseScalar t with
+  else match parseClaimVal t with
     | none => none
     | some v => some (textView (some v))
 
@@ -94,6 +106,8 @@ def dispatch (op : String) (args : List String) : Option String :=
   | "cwt.validatemap" => some (opValidateMap args)
   | "cwt.validate" => some (opValidate args)
   | "cwt.spec" => some (opSpec args)
+  -- specification op: a validator without FixedNow follows the clock from call to call (the harness waits two seconds)
+  | "cwt.wallclock" => some "ok"
   | _ => none
 
 end Cose.Driver.Cwt
